@@ -7,9 +7,37 @@ Layer B (AJ/Model/Full.lean): exits, cancellation, verdicts, shutdown.
 """
 from dyn_gen import index
 
-# which differences break which property's tie (DESIGN.md 3.3): a property proved on layer A depends on the
-# replay of layer A only; the others on the replay of layer B as well
-LAYER_A_PROPS = {"C01", "C02", "C07", "C12", "C14"}
+# Which differences between the model and the implementation break which property's tie (DESIGN.md 3.3).
+# A property depends on the components its theorems use; `env:*` / `guard` differences (the trace is not a
+# behaviour of the model at all: an assumption about asyncio or the job bodies failed, or the run took an exit
+# the model does not take) concern every property.  Components:
+#   start       which jobs are started (entry set, successors after a completion)
+#   slot-limit  a job took a slot although the window was full
+#   eager       the clock advanced although a queued job could take a free slot
+#   urgent      the clock advanced although a wait could return / a cancellation or relay step was pending,
+#               or past an armed deadline
+#   cancel      which tasks are cancelled when a run leaves its loop (and hence which exit was taken)
+#   verdict     value returned / exception raised by a run          diag     failed_time_out / failed_critical
+#   sd          which jobs receive co_shutdown()                     sdto     which handlers are cancelled
+#   sdvalue     value returned by co_shutdown()
+ALWAYS = {"env:A1", "env:guard", "guard", "bad", "harness:translate"}
+ALL = {"start", "slot-limit", "eager", "urgent", "cancel", "verdict", "diag", "sd", "sdto", "sdvalue"}
+RELEVANT = {
+    "C01": ("A", {"start"}),
+    "C02": ("AB", {"start", "cancel", "verdict"}),
+    "C03": ("AB", ALL),
+    "C04": ("AB", {"start", "cancel", "verdict", "diag"}),
+    "C05": ("AB", {"start", "cancel", "urgent", "sdto"}),
+    "C06": ("AB", ALL),
+    "C07": ("A", {"slot-limit"}),
+    "C08": ("AB", {"start", "cancel", "urgent", "verdict", "diag", "sdto"}),
+    "C09": ("AB", {"start", "cancel", "urgent", "verdict", "sdto"}),
+    "C10": ("AB", ALL - {"sd", "sdto", "sdvalue"}),
+    "C11": ("AB", {"start", "cancel", "urgent", "sd", "sdto"}),
+    "C12": ("A", {"start", "eager", "urgent", "slot-limit"}),
+    "C13": ("AB", {"cancel", "urgent", "sd", "sdto", "sdvalue"}),
+    "C14": ("A", {"start"}),
+}
 
 
 def assign_ids(sc):
@@ -386,7 +414,9 @@ def translate(sc, res, trace):
 
 
 def replay_all(pid, traces, res, drv):
-    """traces: list of (scenario, result, trace). Adds correspondence mismatches to `res`."""
+    """traces: list of (scenario, result, trace). Adds the correspondence differences that matter for `pid`
+    to res.mismatches; the others are counted in res.dist["irrelevant_differences"]."""
+    layers, relevant = RELEVANT[pid]
     lines, cases = [], []
     for sc, r, trace in traces:
         try:
@@ -398,17 +428,27 @@ def replay_all(pid, traces, res, drv):
         cfg = cfg_tokens(sc, ids, order)
         lines.append("replayA %s ev=%s" % (cfg, ";".join(A)))
         cases.append((sc, "A", len(A)))
-        if pid not in LAYER_A_PROPS:
+        if "B" in layers:
             lines.append("replayB %s diag=%s ev=%s" % (cfg, diag, ";".join(B)))
             cases.append((sc, "B", len(B)))
     outs = drv.ask(lines)
     nev = {"A": 0, "B": 0}
+    other = {}
     for (sc, layer, n), out, line in zip(cases, outs, lines):
         res.count("replay" + layer)
         nev[layer] += n
         if out.startswith("ok"):
             continue
-        parts = out.split(" ", 3)
-        comp = (parts[2] if len(parts) > 2 else "bad") + "@" + layer
-        res.mismatches.append((comp, {"kind": "scenario", "scenario": sc, "request": line[:4000]}, "accepted", out[:1500]))
+        if not out.startswith("diff"):
+            res.mismatches.append(("bad@" + layer, {"kind": "scenario", "scenario": sc, "request": line[:4000]}, "accepted", out[:1500]))
+            continue
+        for d in out.split(" | ")[1:]:
+            parts = d.split(" ", 2)
+            comp = parts[1] if len(parts) > 1 else "bad"
+            if comp in ALWAYS or comp in relevant:
+                res.mismatches.append((comp + "@" + layer, {"kind": "scenario", "scenario": sc, "request": line[:4000]},
+                                       "accepted", d[:1500]))
+            else:
+                other[comp] = other.get(comp, 0) + 1
     res.dist["events_replayed"] = {"layerA": nev["A"], "layerB": nev["B"]}
+    res.dist["irrelevant_differences"] = other
